@@ -67,7 +67,7 @@ def rule_a(ctx, init, tabs):
                 wrong_sub = any(sn.endswith(f"[{1 - ax}]") for sn in subs)
                 if wrong_idx or wrong_sub:
                     bad.append(norm(comp)[:60])
-        ctx.ob(R, init.qname, f"{name}: axis-0 components use ({i}, [0]) and axis-1 components ({j}, [1]) only", not bad, str(bad[:3]), st)
+        ctx.ob(R, init.qname, f"{name}: axis-0 components use ({i}, [0]) and axis-1 components ({j}, [1]) only", not bad, str(bad[:3]), st, evidence=bool(bad))
     ctx.floor(R, 8)
     k = m.cls(MOD, "Patches")
     for meth in ("__call__", "set_image"):
